@@ -167,7 +167,7 @@ PROPS = {
                       'assumed at entry and proved at exit of every public operation of the WSGI and ASGI BoundedStream, with loop invariants, for all '
                       'bodies, Content-Length values, server chunkings/event shapes and sizes; any history of operations follows by induction.',
         'level_note': 'Trusted: server-side stubs (wsgi.input read/readline return <= n bytes of the remaining body; ASGI receive events), pyvc encoding, '
-                      'z3. Not covered: termination; asgi.Request.stream / Request.bounded_stream wiring is by reading (one constructor call each).',
+                      'z3. The lazy wrapping (Request.bounded_stream / asgi Request.stream: built once over the server input with the declared length) is proved too. Not covered: termination.',
     },
     'C16': {
         'modules': ['contracts.C16_static'],
